@@ -17,7 +17,8 @@ def run(rep, kf, tier, seed):
     import contracts.model_plumbing as cmp_
     engine_b.discharge(rep, kf, cmp_.all_contracts(), "C08", tier, seed)
     import contracts.process_properties as cpp
-    engine_b.discharge(rep, kf, [cpp.composition_contract()], "C08", tier, seed)
+    import contracts.add_parameters as cap
+    engine_b.discharge(rep, kf, [cpp.composition_contract(), cap.add_parameters_contract()], "C08", tier, seed)
     import contracts.fixpoints as cfp
     import contracts.collection_ind as cci
     engine_b.discharge(rep, kf, [crm.propagate_contract(), cbr.resolve_contract(), cci.from_data_inductive_contract()]
